@@ -315,6 +315,13 @@ func NewSchema(r *Rng) *GSchema {
 			Locs: []string{"FIELD", "FIELD_DEFINITION", "OBJECT", "QUERY", "FRAGMENT_SPREAD", "INLINE_FRAGMENT", "ARGUMENT_DEFINITION", "ENUM_VALUE", "INPUT_FIELD_DEFINITION", "SCHEMA", "VARIABLE_DEFINITION", "FRAGMENT_DEFINITION", "MUTATION", "SUBSCRIPTION", "INTERFACE", "UNION", "ENUM", "INPUT_OBJECT", "SCALAR"}},
 		&GDirective{Name: "once", Args: []GArg{{Name: "n", Type: "Int", Default: "3"}},
 			Locs: []string{"FIELD", "FIELD_DEFINITION", "QUERY", "OBJECT", "INLINE_FRAGMENT", "FRAGMENT_SPREAD"}})
+	// a directive applied to the argument of a directive definition — one defined before it and one
+	// defined after it, so that both orders occur however the definitions are arranged
+	if r.Chance(1, 3) {
+		s.Directives[1].Args[0].Dirs = "@tag(name: \"on-arg\")"
+		s.Directives[0].Args[0].Dirs = "@mark"
+		s.Directives = append(s.Directives, &GDirective{Name: "mark", Locs: []string{"ARGUMENT_DEFINITION", "FIELD"}})
+	}
 	if r.Bool() {
 		s.Directives = append(s.Directives, &GDirective{Name: "auth", Args: []GArg{{Name: "role", Type: "Role", Default: "USER"}, {Name: "scopes", Type: "[String!]"}},
 			Locs: []string{"FIELD_DEFINITION", "OBJECT", "FIELD"}, Desc: "access control"})
@@ -448,6 +455,12 @@ func NewSchema(r *Rng) *GSchema {
 		if len(ifaces) > 0 && r.Chance(2, 3) {
 			it := ifaces[r.Intn(len(ifaces))]
 			t.Ifaces = append(append([]string{}, it.Ifaces...), it.Name)
+			// the order in which interfaces are listed is free: the nearest first, half of the time
+			if r.Bool() {
+				for a, z := 0, len(t.Ifaces)-1; a < z; a, z = a+1, z-1 {
+					t.Ifaces[a], t.Ifaces[z] = t.Ifaces[z], t.Ifaces[a]
+				}
+			}
 			for _, pf := range it.Fields {
 				f := pf
 				f.Args = append([]GArg{}, pf.Args...)
@@ -855,8 +868,19 @@ var SchemaFaults = []Fault{
 	{"missing-transitive-interface", func(r *Rng, s *GSchema) bool {
 		for _, t := range s.Types {
 			if (t.Kind == "type" || t.Kind == "interface") && !t.Ext && len(t.Ifaces) >= 2 {
-				t.Ifaces = t.Ifaces[1:]
-				return true
+				// drop an interface that another listed interface implements (in whatever order they are listed)
+				for i, anc := range t.Ifaces {
+					for _, other := range t.Ifaces {
+						if ot := s.find(other); ot != nil && other != anc {
+							for _, x := range ot.Ifaces {
+								if x == anc {
+									t.Ifaces = append(append([]string{}, t.Ifaces[:i]...), t.Ifaces[i+1:]...)
+									return true
+								}
+							}
+						}
+					}
+				}
 			}
 		}
 		return false
